@@ -178,6 +178,8 @@ pub fn check(hdr: &str, lines: &[String], trace: &[(String, Vec<String>)], mon: 
         next_seq: u8,
         frags: usize,
         valid: bool,
+        /// link address of the requester: only responses sent to it belong to the series
+        to: String,
     }
     let mut series: Option<Series> = None;
     let mut sent: HashSet<Vec<u8>> = HashSet::new();
@@ -324,7 +326,7 @@ pub fn check(hdr: &str, lines: &[String], trace: &[(String, Vec<String>)], mon: 
         }
         // a byte-identical repeat of the previous request is echoed from the stored header
         let mut repeat_request = false;
-        if ws[0] == "rx" && ws[2] == "1024" {
+        if ws[0] == "rx" && (ws[2] == "1024" || (ws[2] == "65532" && selfaddr)) && (ws[1] == "1" || anymaster) {
             let f = unhex(ws[3]);
             if f.len() >= 2 && f[1] != 0 {
                 repeat_request = last_request.as_ref() == Some(&f) && f[1] != 1;
@@ -414,14 +416,31 @@ pub fn check(hdr: &str, lines: &[String], trace: &[(String, Vec<String>)], mon: 
                 (_, Some(s)) => txs.iter().rev().find(|t| t.uns && t.seq == s),
                 _ => None,
             };
+            // one clear_written releases one set: when part of it is the D4 / D19 leftover (events stuck in
+            // `Written`), the object-to-event matching of the confirmed response (by index and image, oldest
+            // unreleased first) may have credited a stuck look-alike instead of the event really carried,
+            // so the cause extends to the whole set
+            let mut set_cause = "";
+            for id in &cleared {
+                if !confirmed.map(|t| t.carried.contains(id)).unwrap_or(false) {
+                    let carriers: Vec<&TxRec> = txs.iter().filter(|t| t.carried.contains(id)).collect();
+                    // the LAST response that carried it decides: earlier solicited carriers that were aborted
+                    // or timed out returned it to the pool (database.reset)
+                    if carriers.last().map_or(false, |t| t.session < session) {
+                        set_cause = "D19";
+                    } else if carriers.last().map_or(false, |t| t.uns) && set_cause.is_empty() {
+                        set_cause = "D4";
+                    }
+                }
+            }
             for id in &cleared {
                 let carried_by_confirmed = confirmed.map(|t| t.carried.contains(id)).unwrap_or(false);
                 if !carried_by_confirmed {
                     // D4: carried only by an unsolicited response that was never confirmed
                     let carriers: Vec<&TxRec> = txs.iter().filter(|t| t.carried.contains(id)).collect();
-                    let d19 = !carriers.is_empty() && carriers.iter().all(|t| t.session < session);
-                    let d4 = !carriers.is_empty() && carriers.iter().all(|t| t.uns);
-                    fail(mon, hdr, "released_only_after_confirm", if d19 { "D19" } else if d4 { "D4" } else { "" }, &format!("op {k}: event {id} released, not carried by the confirmed response"));
+                    let d19 = carriers.last().map_or(false, |t| t.session < session);
+                    let d4 = carriers.last().map_or(false, |t| t.uns);
+                    fail(mon, hdr, "released_only_after_confirm", if d19 { "D19" } else if d4 { "D4" } else { set_cause }, &format!("op {k}: event {id} released, not carried by the confirmed response"));
                 }
                 match ledger.iter_mut().find(|e| e.id == *id) {
                     Some(e) => {
@@ -457,6 +476,14 @@ pub fn check(hdr: &str, lines: &[String], trace: &[(String, Vec<String>)], mon: 
 
         let mut echo_op = false;
         // ---- a new READ request starts a series expectation (snapshot at request time)
+        let to_broadcast = ws[0] == "rx" && matches!(ws[2], "65533" | "65534" | "65535");
+        if to_broadcast && (ws[1] == "1" || anymaster) {
+            // a broadcast fragment (processed, ignored by configuration or in error) supersedes a deferred READ
+            let f = unhex(ws[3]);
+            if f.len() >= 2 && !(f[1] == 0 && f[0] & 0xC0 == 0xC0) && series.as_ref().map_or(false, |s| s.frags == 0) {
+                series = None;
+            }
+        }
         if ws[0] == "rx" && (ws[1] == "1" || anymaster) && ws[1].parse::<u32>().map_or(false, |s| s < 0xFFF0) && (ws[2] == "1024" || (ws[2] == "65532" && selfaddr)) {
             let f = unhex(ws[3]);
             let echo_of_read = in_sol_wait && last_read.as_ref() == Some(&f) && !outs.iter().any(|o| o.starts_with("cb sol_new_request"));
@@ -469,7 +496,7 @@ pub fn check(hdr: &str, lines: &[String], trace: &[(String, Vec<String>)], mon: 
             } else if f.len() >= 2 && f[1] == 1 && f[0] & 0xF0 == 0xC0 {
                 // the expectation (snapshot) is taken when the first fragment is transmitted: at once for a
                 // READ processed from idle, when the unsolicited series ends for a deferred READ
-                series = expected_static(&f[2..], &bin_pts, &an_pts).map(|want| Series { req: f[2..].to_vec(), want, got: Vec::new(), first_seq: f[0] & 0x0F, next_seq: f[0] & 0x0F, frags: 0, valid: true });
+                series = expected_static(&f[2..], &bin_pts, &an_pts).map(|want| Series { req: f[2..].to_vec(), want, got: Vec::new(), first_seq: f[0] & 0x0F, next_seq: f[0] & 0x0F, frags: 0, valid: true, to: ws[1].to_string() });
             } else if f.len() >= 2 && !(f[1] == 0 && f[0] & 0xC0 == 0xC0) {
                 // anything but a well-formed CONFIRM supersedes (header errors such as a non FIR/FIN control
                 // octet included: they are answered with the request's sequence number)
@@ -565,24 +592,45 @@ pub fn check(hdr: &str, lines: &[String], trace: &[(String, Vec<String>)], mon: 
                 let got = [b[2] & 0x02 != 0, b[2] & 0x04 != 0, b[2] & 0x08 != 0];
                 let is_echo = false;
                 if !is_echo && got != want {
+                    // events stuck in `Written` (D4: last carried by an unsolicited response whose series ended
+                    // unconfirmed; D19: last carried in an earlier session) are not offered and not counted; the
+                    // object-to-event matching (index and image, oldest unreleased first) may moreover have
+                    // credited a stuck look-alike instead of the event really carried, so any stuck event of
+                    // the class explains a missing bit
+                    let mut stuck_d4 = [false; 3];
+                    let mut stuck_d19 = [false; 3];
+                    for e in &ledger {
+                        if e.released || e.discarded || !(1..=3).contains(&e.class) {
+                            continue;
+                        }
+                        if let Some(t) = txs.iter().rev().find(|t| t.carried.contains(&e.id)) {
+                            let c = (e.class - 1) as usize;
+                            if t.session < session {
+                                stuck_d19[c] = true;
+                            } else if t.uns && !outstanding_unsol.contains(&e.id) {
+                                stuck_d4[c] = true;
+                            }
+                        }
+                    }
                     let extra = (0..3).any(|c| got[c] && !want[c]);
-                    let missing_explained = (0..3).all(|c| !(want[c] && !got[c]) || stale_written[c]);
-                    let cause = if !extra && missing_explained { "D4" } else if d3_possible { "D3" } else { "" };
+                    let missing_explained = (0..3).all(|c| !(want[c] && !got[c]) || stale_written[c] || stuck_d4[c] || stuck_d19[c]);
+                    let by_d19 = (0..3).any(|c| want[c] && !got[c] && stuck_d19[c]);
+                    let cause = if !extra && missing_explained { if by_d19 { "D19" } else { "D4" } } else if d3_possible { "D3" } else { "" };
                     // stored-header echoes are filtered by the caller through `resend` below
-                    if !sent.contains(&b) && !repeat_request {
+                    if !sent.contains(&b) && !repeat_request && !echo_op {
                         fail(mon, hdr, "class_bits_exact", cause, &format!("op {k}: {} class bits got {:?} want {:?}", hex(&b[..4]), got, want));
                     }
                 }
                 let ov = b[3] & 0x08 != 0;
                 if ov != overflow_expected {
-                    if !sent.contains(&b) && !repeat_request {
+                    if !sent.contains(&b) && !repeat_request && !echo_op {
                         fail(mon, hdr, "overflow_bit_interval", "", &format!("op {k}: {} overflow bit got {ov} want {overflow_expected}", hex(&b[..4])));
                     }
                 }
             }
             // C11: series bookkeeping
             if !uns && !echo_op {
-                if let Some(s) = series.as_mut() {
+                if let Some(s) = series.as_mut().filter(|s| s.to == p[1]) {
                     let seq = b[0] & 0x0F;
                     let fir = b[0] & 0x80 != 0;
                     let fin = b[0] & 0x40 != 0;
